@@ -484,6 +484,7 @@ def check_with_timeout(ck, R="C34.with-timeout", RS="C34.settle"):
 
 
 def run(ck):
+    ck._orig_repo = getattr(ck, "_orig_repo", None) or ck.repo
     ck.repo = normalized(ck.repo, NORM_MODULES)  # alias / named-boolean / temporary / setter-helper normalisation (vt/x_syncnorm.py)
     ck.rule("C34.cond-wait", "Condition.wait queues one fresh future at the tail, returns it, never settles it itself")
     ck.rule("C34.cond-timeout", "Condition.wait arms one timer iff a timeout was given; its callback resolves a live waiter with False exactly once, never True")
